@@ -173,6 +173,20 @@ def r2_bisect_scan(ctx, cmpf, arms):
     okb = isinstance(b, ast.ListComp) and _norm(b.elt) == "(lo if v0 is None else BR(v0), hi if v1 is None else BL(v1))" and unparse(b.generators[0].iter) == "zip(arg[0:], arg[1:])"
     oks = isinstance(s, ast.ListComp) and bool(s.generators[0].ifs) and unparse(s.generators[0].ifs[0]) == "c not in arg"
     ctx.ob("C17.R2", RES, "Table._compare", arm or cmpf, "'!in': the gaps [BR(v_k), BL(v_k+1)) between consecutive sorted values <-> scan `c not in arg`", okp and okb and oks, stmt="bisect~scan !in")
+    # BL / BR themselves: shortcuts around bisect_left / bisect_right that must not change their meaning
+    for name, std, ret, probe in (("my_bisect_left", "bisect_left", "l", "c[l]"), ("my_bisect_right", "bisect_right", "h", "c[h - 1]")):
+        f = ctx.fn(RES, name)
+        rets = [r.value for r in walk_shallow(f) if isinstance(r, ast.Return)]
+        ok = False
+        d = {}
+        if len(rets) == 1 and isinstance(rets[0], ast.IfExp):
+            e = rets[0]
+            params = [a.arg for a in f.args.args]
+            d = {"shortcut": unparse(e.body), "when": unparse(e.test), "fallback": unparse(e.orelse)}
+            ok = params == ["c", "a", "l", "h"] and unparse(e.body) == ret and unparse(e.test) == f"{probe} == a" and unparse(e.orelse) == f"{std}(c, a, l, h)"
+        elif len(rets) == 1:
+            ok = unparse(rets[0]) == f"{std}(c, a, l, h)"
+        ctx.ob("C17.R2", RES, name, f, f"{name}(c,a,l,h) is {std}(c,a,l,h) with an equivalent shortcut ({ret} when {probe} == a)", ok, detail=d, stmt=f"{name} definition")
     # the scan works on the [lo,hi) slice and numbers rows from lo
     sl = [x for x in walk_shallow(cmpf) if isinstance(x, ast.Assign) and unparse(x) == "col = col[lo:hi]"]
     ok = len(sl) == 1 and any(unparse(t) == "method != 'bisect' or callable(arg)" and p for t, p in guards_of(sl[0], cmpf))
@@ -246,6 +260,7 @@ def r5_order(ctx, where, arms):
 
 
 CONTROLS = [
+    ("bisect fallback skips first row", RES, M.replace_expr("my_bisect_left", "bisect_left(c, a, l, h)", "bisect_left(c, a, l + 1, h)"), "C17.R2"),
     ("swap bisects in <=", RES, M.replace_expr("Table._compare", "[(lo, my_bisect_right(col, arg, lo, hi))]", "[(lo, my_bisect_left(col, arg, lo, hi))]"), "C17.R2"),
     ("scan > becomes >=", RES, M.replace_expr("Table._compare", "c > arg", "c >= arg"), "C17.R2"),
     ("unsorted union", RES, M.replace_expr("Table.where", "sorted(set(selection))", "selection"), "C17.R3"),
